@@ -227,6 +227,14 @@ Section Cong.
   Qed.
 End Cong.
 
+(* without an Encrypt entry the decrypt attempt of the reader leaves the document alone (authenticate_password answers
+   NotEncrypted): why Model/LoaderEnc.v consults the attempt in the Encrypt branch only *)
+Lemma after_crypt_without_encrypt P x d t :
+  dict_get (d_trailer d) Handler.K_Encrypt = None -> after_crypt P x d t = CLoad (LOk d t).
+Proof.
+  intro H. unfold after_crypt, authenticate_password, is_encrypted, get_encrypted. rewrite H. reflexivity.
+Qed.
+
 (* ---------- the encryption dictionary holds no real; the first ID string survives the normal form ---------- *)
 Lemma norm_set d k v :
   ObjectRtProofs.norm_dict d = d -> norm_obj v = v -> ObjectRtProofs.norm_dict (dict_set d k v) = dict_set d k v.
